@@ -58,9 +58,11 @@ def jobs(tier, seed):
         for ncl in (0, 1, 2):
             for nm in (1, 2):
                 for sign in ("free", "nonneg"):
-                    for nanpat in ("none", "one"):
+                    for nanpat in ("none", "one", "onemetric"):
                         if nanpat == "one" and (ncl == 0 or k < 3):
                             continue  # empty combinations only arise with >= 2 grouping columns
+                        if nanpat == "onemetric" and (nm < 2 or k < 3):
+                            continue  # one metric of a dict is undefined (NaN) for a NON-empty group, the other metric is defined there
                         for sym_cl in range(max(ncl, 1)):
                             for sym_m in range(nm):
                                 if k == 4 and (sym_cl > 0 or sym_m > 0):
@@ -97,6 +99,8 @@ def _build_tables(job, mk):
             for si, s in enumerate(sfs):
                 if job["nan"] == "one" and si == k - 1 and ci == 0:
                     cells[(cl, s, m)] = math.nan  # an empty intersection
+                elif job["nan"] == "onemetric" and si == k - 1 and ci == 0 and mi != job["sym_m"]:
+                    cells[(cl, s, m)] = math.nan  # the OTHER metric is undefined for this (non-empty) group
                 else:
                     cells[(cl, s, m)] = mk(f"c_{ci}_{si}_{mi}") if symbolic else np.float64(next(conc))
     if ncl:
